@@ -136,3 +136,135 @@ Contract(
     allocates=True,
     props=P,
 )
+
+
+# =================================================================================================
+# TaskGraph.notify_task_completion (C18 / C02 release rule, C07 conditional rule)
+# =================================================================================================
+from contracts.c_tasks import RUNNING, VIRTUAL, RELEASED  # noqa: E402
+from contracts.c_utils import ETy as _ETy  # noqa: E402
+
+TL2 = T.Tup(TaskList, TaskList)
+RealList = T.List(T.REAL)
+JOB = "workload.jobs.Job"
+EPS = z3.RealVal("1/4503599627370496")
+
+Contract("workload.tasks.Task.__eq__", params={"self": S_.Task.ty, "other": S_.Task.ty}, ret=T.BOOL, trusted=True,
+         ensures=lambda c: c.res == (c.arg("self") == c.arg("other")),
+         note="Task.__eq__ compares the 128-bit ids: identity, under the assumption that distinct Task objects have distinct ids", props=P + ("C07",))
+
+Contract(
+    "random.choices",
+    params={"population": TaskList, "weights": RealList, "k": T.INT},
+    ret=TaskList,
+    trusted=True,
+    allocates=True,
+    ensures=lambda c: z3.And(
+        c.res >= c.alloc0,
+        c.post.c_len(TaskList, c.res) == c.arg("k"),
+        # each drawn element is population[j] for some j whose weight is positive
+        z3.Exists(
+            [z3.Int("rc_j")],
+            z3.And(0 <= z3.Int("rc_j"), z3.Int("rc_j") < c.pre.c_len(TaskList, c.arg("population")), c.post.l_elem(TaskList, c.res, 0) == c.pre.l_elem(TaskList, c.arg("population"), z3.Int("rc_j")), c.pre.l_elem(RealList, c.arg("weights"), z3.Int("rc_j")) > 0),
+        ),
+    ),
+    note="random.choices(population, weights, k=1): the drawn element comes from the population and has a positive weight (a zero-weight element has a zero-length interval in the cumulative distribution)",
+    props=P + ("C07",),
+)
+
+CLS = z3.Function("cancel_closure", z3.ArraySort(z3.IntSort(), z3.IntSort()), z3.IntSort(), z3.IntSort(), z3.IntSort(), z3.BoolSort())
+
+
+def _cancel_ens(c):
+    g, task = c.arg("self"), c.arg("task")
+    x = z3.Int(H.fresh_name("tc_x"))
+    cl = lambda y: CLS(c.pre.fld_arr(TASK, "_state")[2], g, task, y)
+    return z3.And(
+        c.res >= c.alloc0,
+        z3.ForAll([x], c.post.l_mem(TaskList, c.res, x) == cl(x), patterns=[c.post.l_mem(TaskList, c.res, x)]),
+        z3.ForAll([x], z3.If(cl(x), z3.And(x > 0, x < c.alloc0, task_state(c.post, x) == CANCELLED), task_state(c.post, x) == task_state(c.pre, x)), patterns=[task_state(c.post, x), cl(x)]),
+        cl(task),
+    )
+
+
+def child_at(h, g, t, j):
+    return h.l_elem(TaskList, h.d_val(Adj, g_children(h, g), t), j)
+
+
+def n_children(h, g, t):
+    return h.c_len(TaskList, h.d_val(Adj, g_children(h, g), t))
+
+
+def all_parents_complete(h, g, x):
+    j = z3.Int(H.fresh_name("apc_j"))
+    return z3.ForAll([j], z3.Implies(z3.And(0 <= j, j < n_parents(h, g, x)), is_complete_state(task_state(h, parent_at(h, g, x, j)))))
+
+
+def conditional(h, t):
+    return h.rd(h.rd(t, TASK, "_creating_job")[1], JOB, "_conditional")[1]
+
+
+def releasable_child(h, g, x):
+    """C18: a child is released on completion of a parent iff it is not cancelled and (it is a join, or every parent is complete)"""
+    return z3.And(task_state(h, x) != CANCELLED, z3.Or(terminal(h, x), all_parents_complete(h, g, x)))
+
+
+def _ntc_requires(c):
+    g, t = c.arg("self"), c.arg("task")
+    j = z3.Int(H.fresh_name("nr_j"))
+    ch = lambda k: child_at(c.pre, g, t, k)
+    return {
+        "maps_distinct": g_children(c.pre, g) != g_parents(c.pre, g),
+        "children_in_graph": z3.ForAll([j], z3.Implies(z3.And(0 <= j, j < n_children(c.pre, g, t)), z3.And(ch(j) != 0, c.pre.d_dom(Adj, g_children(c.pre, g), ch(j)))), patterns=[ch(j)]),
+    }
+
+
+def _ntc_raises_value(c):
+    return z3.Not(is_complete_state(task_state(c.pre, c.arg("task"))))
+
+
+def _ntc_mod(c):
+    g = c.arg("self")
+    out = _adj_mod(c, g_parents(c.pre, g))
+    for f in ("_state", "_cancellation_time", "_probability", "_remaining_time"):
+        out[c.pre.fld_arr(TASK, f)[0]] = ANY
+    return out
+
+
+def _ntc_ens(c):
+    g, t = c.arg("self"), c.arg("task")
+    rel, can = T.tup_get(TL2, c.res, 0), T.tup_get(TL2, c.res, 1)
+    x = z3.Int(H.fresh_name("ne_x"))
+    j = z3.Int(H.fresh_name("ne_j"))
+    is_child = lambda y: z3.Exists([j], z3.And(0 <= j, j < n_children(c.pre, g, t), child_at(c.pre, g, t, j) == y))
+    cond = conditional(c.pre, t)
+    return {
+        # C18 / C02: for an ordinary (non-conditional) task exactly the releasable children are released, nothing is cancelled
+        "release.exactly_unlocked_children": z3.Implies(
+            z3.Not(cond), z3.ForAll([x], c.post.l_mem(TaskList, rel, x) == z3.And(is_child(x), releasable_child(c.pre, g, x)), patterns=[c.post.l_mem(TaskList, rel, x)])
+        ),
+        "release.nothing_cancelled_unless_conditional": z3.Implies(z3.Not(cond), c.post.c_len(TaskList, can) == 0),
+        # C07: for a conditional at most one child is released, it is a child, and its weight is positive
+        "cond.at_most_one": z3.Implies(cond, c.post.c_len(TaskList, rel) <= 1),
+        "cond.released_is_positive_weight_child": z3.Implies(
+            z3.And(cond, c.post.c_len(TaskList, rel) == 1),
+            z3.And(is_child(c.post.l_elem(TaskList, rel, 0)), c.pre.rd(c.post.l_elem(TaskList, rel, 0), TASK, "_probability")[1] > 0),
+        ),
+    }
+
+
+def _ntc_loop_noncond_inv(c, L):
+    g, t = c.arg("self"), c.arg("task")
+    h = c.post
+    rel = L.var("released_tasks")
+    can = L.var("cancelled_tasks")
+    x = z3.Int(H.fresh_name("nl_x"))
+    j = z3.Int(H.fresh_name("nl_j"))
+    seen = lambda y: z3.Exists([j], z3.And(0 <= j, j < L.i, child_at(c.pre, g, t, j) == y))
+    return {
+        "released_prefix": z3.ForAll([x], h.l_mem(TaskList, rel, x) == z3.And(seen(x), releasable_child(c.pre, g, x)), patterns=[h.l_mem(TaskList, rel, x)]),
+        "cancelled_empty": h.c_len(TaskList, can) == 0,
+        "lists_fresh": z3.And(rel >= c.alloc0, can >= c.alloc0, rel != can),
+        "states_untouched": h.fld_arr(TASK, "_state")[2] == c.pre.fld_arr(TASK, "_state")[2],
+        "children_untouched": z3.And(h.d_vals(Adj, g_children(c.pre, g)) == c.pre.d_vals(Adj, g_children(c.pre, g)), h.carr(TaskList, "len")[1] == h.carr(TaskList, "len")[1]),
+    }
